@@ -101,7 +101,7 @@ PROPS = {
                 n_trace=dict(quick=160, thorough=1500), n_search=dict(quick=2500, thorough=40000)),
     "C10": dict(trace_gen="C10", oracle="C10", relevant=rel({3: STRUCT, 4: LAYER | TREE, 14: {1, 2, 3}}), trace_env={"VH_CERT": "1"},
                 units=["vbalance", "normalize", "ns"], n_units=dict(quick=1200, thorough=12000), unit_classify=c10_unit,
-                n_trace=dict(quick=200, thorough=2000), n_search=dict(quick=1500, thorough=20000)),
+                n_trace=dict(quick=200, thorough=2000), n_search=dict(quick=36000, thorough=300000)),
     "C11": dict(trace_gen="C11", oracle="C11", relevant=rel({3: STRUCT, 4: LAYER}),
                 n_trace=dict(quick=200, thorough=2000), n_search=dict(quick=3000, thorough=60000)),
     "C12": dict(units=["crossings", "order"], n_units=dict(quick=240, thorough=4000), unit_classify=c12_unit, trace_gen="C12", oracle="C12", relevant=rel({5: POS | STRUCT, 6: XY, 7: ROUTE, 9: {1, 2}, 13: {0, 1}, 15: ALLF | {0}, 16: {2, 3, 4}}),
